@@ -101,6 +101,7 @@ class Slicer:
         self._defs = None
         self._memo = {}
         self._inprog = set()
+        self.loopvars = {}
 
     # -- definitions ---------------------------------------------------------
     def defs(self):
@@ -242,11 +243,13 @@ class Slicer:
             key = (l, ds[0][0], ds[0][1], "single")
         else:
             sites, entry = self.reaching(l, blk, idx)
+            sites = sorted(set(sites))
             key = (l, tuple(sites), entry)
         if key in self._memo:
             return self._memo[key]
         if key in self._inprog:
-            return ("cycle", l)
+            # loop-carried variable: an opaque symbol for "the value of local l given these reaching definitions"
+            return ("loopvar", l, b.local_name(l), tuple(sites), entry)
         self._inprog.add(key)
         try:
             ts = []
@@ -262,10 +265,18 @@ class Slicer:
                 r = ts[0]
             else:
                 r = ("phi", tuple(ts))
+            tok = ("loopvar", l, b.local_name(l), tuple(sites), entry)
+            if key[-1] != "single" and contains(r, lambda x: x == tok):
+                self.loopvars[tok] = r
+                r = tok
         finally:
             self._inprog.discard(key)
         self._memo[key] = r
         return r
+
+    def expand(self, t):
+        """One-level expansion of loop-carried symbols (phi of their definitions, inner self references stay symbolic)."""
+        return rebuild(t, lambda x: self.loopvars.get(x) if x[0] == "loopvar" else None)
 
     def def_term(self, l, db, dj, depth):
         blk = self.body.blocks[db]
@@ -300,7 +311,7 @@ class Slicer:
         if k == "unop":
             return ("unop", r["op"], self.operand(r["o"], blk, idx, depth))
         if k == "cast":
-            return ("cast", r["ck"], self.operand(r["o"], blk, idx, depth), r["ty"])
+            return ("cast", r["ck"], self.operand(r["o"], blk, idx, depth), r["ty"], r.get("from"))
         if k == "agg":
             ops = tuple(self.operand(o, blk, idx, depth) for o in r["ops"])
             return ("agg", r["ak"], r.get("path"), r.get("variant"), ops)
@@ -444,14 +455,19 @@ def strip(t):
             return t
 
 
-_IDENT = ("::clone::Clone>::clone", "Deref>::deref", "DerefMut>::deref_mut", "AsRef<", "::as_ref", "::as_str",
-          "::as_slice", "::as_bytes", "::to_owned", "::to_string", "::to_vec", "::as_mut", "Borrow<", "::into",
-          "From<", "::as_deref", "::as_mut_slice", "::iter", "::into_iter", "::copied", "::cloned", "String::as_str",
-          "::borrow")
+_IDENT_END = ("::clone", "::deref", "::deref_mut", "::as_ref", "::as_str", "::as_slice", "::as_bytes", "::to_owned", "::to_string", "::to_vec",
+              "::as_mut", "::into", "::from", "::as_deref", "::as_mut_slice", "::iter", "::into_iter", "::copied", "::cloned", "::borrow", "::as_mut_str")
 
 
 def is_identity_call(callee):
-    return any(f in callee for f in _IDENT)
+    """value-preserving std conversions (judged by the method name, i.e. the last path segment)"""
+    last = callee.rsplit("::", 1)[-1]
+    if ("::" + last) in _IDENT_END:
+        # `from`/`into` only for the std conversion traits, `iter`/`into_iter` only as methods
+        if last in ("from", "into"):
+            return "convert::From" in callee or "convert::Into" in callee or "From<" in callee or "Into<" in callee
+        return True
+    return False
 
 
 def pp(t, depth=0):
@@ -503,6 +519,8 @@ def pp(t, depth=0):
         return "discr(%s)" % pp(t[1], depth)
     if g == "phi":
         return "φ(" + " | ".join(pp(x, depth + 1) for x in t[1][:4]) + (" …" if len(t[1]) > 4 else "") + ")"
+    if g == "loopvar":
+        return "%s@loop" % (t[2] or ("_%d" % t[1]))
     if g == "partial":
         return "upd%s=%s" % (list(t[1]), pp(t[2], depth + 1))
     return str(t[0])
@@ -732,3 +750,34 @@ def fold_int(t):
     if t[0] == "cast":
         return fold_int(t[2])
     return None
+
+
+def canon_value(t, depth=0):
+    """Canonical identity of a (slice / container) value: peel refs, derefs and identity conversions, distributing them over phi,
+    so that `phi(a, &*b)` and `&phi(*a, *b)` denote the same thing."""
+    if depth > 20:
+        return t
+    while True:
+        if t[0] == "ref":
+            t = t[2]
+        elif t[0] == "deref":
+            t = t[1]
+        elif t[0] == "cast" and t[1].startswith(("PointerCoercion", "Transmute", "PtrToPtr")):
+            t = t[2]
+        elif t[0] == "call" and len(t[2]) >= 1 and is_identity_call(t[1]):
+            t = t[2][0]
+        else:
+            break
+    if t[0] == "phi":
+        alts = []
+        for x in t[1]:
+            c = canon_value(x, depth + 1)
+            if c[0] == "phi":
+                for y in c[1]:
+                    if y not in alts:
+                        alts.append(y)
+            elif c not in alts:
+                alts.append(c)
+        alts.sort(key=repr)
+        return alts[0] if len(alts) == 1 else ("phi", tuple(alts))
+    return t
